@@ -394,10 +394,12 @@ class MultivariateNormal(TMultivariateNormal, Distribution):
 
     def __add__(self, other: MultivariateNormal) -> MultivariateNormal:
         if isinstance(other, MultivariateNormal):
-            return self.__class__(
-                mean=self.mean + other.mean,
-                covariance_matrix=(self.lazy_covariance_matrix + other.lazy_covariance_matrix),
-            )
+            covar, other_covar = self.lazy_covariance_matrix, other.lazy_covariance_matrix
+            if covar.shape != other_covar.shape:
+                # Structured operators (e.g. Kronecker products) do not broadcast batch dimensions when they are added
+                shape = torch.broadcast_shapes(covar.shape, other_covar.shape)
+                covar, other_covar = covar.expand(shape), other_covar.expand(shape)
+            return self.__class__(mean=self.mean + other.mean, covariance_matrix=(covar + other_covar))
         elif isinstance(other, int) or isinstance(other, float):
             return self.__class__(self.mean + other, self.lazy_covariance_matrix)
         else:
